@@ -709,6 +709,10 @@ func (d *urlValuesDecoder) DecodeObject(param string, sm *openapi3.Serialization
 			}
 		}
 	}
+	if !found && len(val) == 0 {
+		// The query carries none of the object's properties: the parameter is absent, not an empty object.
+		return nil, false, nil
+	}
 
 	return val, found, nil
 }
